@@ -48,6 +48,23 @@ theorem all_sortByName (f : HeaderMatcher → Bool) (l : List HeaderMatcher) :
   | nil => simp [sortByName]
   | cons x xs ih => simp [sortByName, all_insertByName, ih]
 
+theorem all_insertQByName (f : QueryMatcher → Bool) (q : QueryMatcher) (l : List QueryMatcher) :
+    (insertQByName q l).all f = (f q && l.all f) := by
+  induction l with
+  | nil => simp [insertQByName]
+  | cons x xs ih =>
+    unfold insertQByName
+    split
+    · simp only [List.all_cons, ih]
+      cases f x <;> cases f q <;> simp
+    · simp [List.all_cons]
+
+theorem all_sortQByName (f : QueryMatcher → Bool) (l : List QueryMatcher) :
+    (sortQByName l).all f = l.all f := by
+  induction l with
+  | nil => simp [sortQByName]
+  | cons x xs ih => simp [sortQByName, all_insertQByName, ih]
+
 theorem mem_insertByName (a h : HeaderMatcher) (l : List HeaderMatcher) :
     a ∈ insertByName h l ↔ a = h ∨ a ∈ l := by
   induction l with
